@@ -58,11 +58,16 @@ def handlePOp (acc : Acc) (h : FHist) (kv : KV) (line : String) : Acc × FHist :
     match op with
     | "append" =>
       let acc := if ok && snd != h.owner then acc.report "SPECFAIL" "C09" "price-submitted-by-non-owner" line else acc
+      -- judged against what was SUBMITTED: one new round with exactly these values, older rounds untouched
+      let acc := if ok && !(Spec.C18F.recordedOk pre (readRounds (post.get key)) [(kv.nat "price", kv.nat "ts")])
+        then acc.report "SPECFAIL" "C18" "feed-submission-not-recorded-as-submitted" line else acc
       match appendPrice feedPre snd key (kv.nat "price") (kv.nat "ts") with
       | .ok f => if ok && sameFeed f then acc else (acc.report "DISAGREE" "C18" "feed-append" line).report "DISAGREE" "C09" "feed-append" line
       | .error _ => if ok then (acc.report "DISAGREE" "C18" "feed-append-accept" line).report "DISAGREE" "C09" "feed-append-accept" line else acc
     | "appendm" =>
       let acc := if ok && snd != h.owner then acc.report "SPECFAIL" "C09" "price-submitted-by-non-owner" line else acc
+      let acc := if ok && !(Spec.C18F.recordedOk pre (readRounds (post.get key)) ((parseNatList (kv.str "prices")).zip (parseNatList (kv.str "tss"))))
+        then acc.report "SPECFAIL" "C18" "feed-submissions-not-recorded-as-submitted" line else acc
       match appendMultiple feedPre snd key (parseNatList (kv.str "prices")) (parseNatList (kv.str "tss")) with
       | .ok f => if ok && sameFeed f then acc else (acc.report "DISAGREE" "C18" "feed-append-multi" line).report "DISAGREE" "C09" "feed-append-multi" line
       | .error _ => if ok then (acc.report "DISAGREE" "C18" "feed-append-multi-accept" line).report "DISAGREE" "C09" "feed-append-multi-accept" line else acc
